@@ -127,6 +127,12 @@ def run_build(cli, r, texts, lib_convert, workdir, idx):
         pattern = os.path.join("src" if not missing else "nope", "*.bob")
         if use_out:
             outdir = os.path.join(d, "out_rel")
+    if use_out and not missing and names and r.random() < 0.4:
+        # left-over outputs of an earlier run (newer than the sources): they must be replaced
+        os.makedirs(outdir, exist_ok=True)
+        for nm in names[:2]:
+            with open(os.path.join(outdir, nm + ".svg"), "w") as f:
+                f.write("<svg>stale</svg>")
     argv = ["build", "-i", pattern] + (["-o", (os.path.relpath(outdir, d) if cwd else outdir)] if use_out else [])
     p = subprocess.run([cli] + argv, stdout=subprocess.PIPE, stderr=subprocess.PIPE, timeout=120, cwd=cwd)
     written = []
@@ -166,6 +172,10 @@ def run_build_scenario(cli, r, sc, texts, lib_convert, workdir, idx):
                 content[e["stem"]] = t
                 if e["blocked"]:
                     os.makedirs(os.path.join(outdir, e["stem"] + ".svg"), exist_ok=True)
+                elif r.random() < 0.3:
+                    # a left-over output from an earlier run, newer than the source: it must be replaced
+                    with open(os.path.join(outdir, e["stem"] + ".svg"), "w") as f:
+                        f.write("<svg>stale</svg>")
     relative = r.random() < 0.5
     argv = ["build", "-i", os.path.join("src" if relative else src, "*.bob"), "-o", "out" if relative else outdir]
     p = subprocess.run([cli] + argv, stdout=subprocess.PIPE, stderr=subprocess.PIPE, timeout=120, cwd=d)
